@@ -3,6 +3,26 @@
 ZSTD = "zstd crate: decompress(compress(x)) = x and context-history independence (exercised, not proved)"
 
 PROPS = {
+    "C11": {
+        "level": "proof",
+        "assumptions": [
+            "Model/Splitters.lean mirrors splitters.rs determine_splitters / _streaming / _streaming_first_sample (one model, three "
+            "entry points; the first-sample variant on the leading run of records with the first record's sample name), "
+            "find_actual_splitters_in_contig and kmer_extract.rs remove_non_singletons(_with_duplicates); tied by set-exact "
+            "correspondence of all three variants under rayon pools of 1/2/4/16 threads and by pick positions = split positions",
+            "trusted library behaviour: rdst radix sort returns the sorted permutation (model: List.mergeSort), AHashSet::contains "
+            "is membership (model: binary search, proved), rayon par_iter().map().collect() preserves order, genome_io parses the "
+            "FASTA written by the harness into the contigs it was rendered from",
+            "strand invariance (strand_invariant, enumerate_rc_closed) and pick_is_canonical_window use C20's enumerate_spec, "
+            "canonical_rc and the Inv invariant of Lemmas/Kmer.lean (1 <= k <= 32); kmers_rc_invariant / enumerate_rc keep them as "
+            "explicit hypotheses h_window / h_canon_rc",
+            "self_segmentation_segments composes with the C10 model (Model/Segment.lean, Lemmas/Segment.lean): the split events "
+            "`cuts` of split_at_splitters_with_size over the Kmer tracker are the loop picks of findLoop with segment_size 0 "
+            "(cuts_eq_findLoop); that reading is additionally tied to the real segmenter by comparing split positions on "
+            "arbitrary splitter sets (harness, segmenter-loop/positions)",
+        ],
+        "trusted": ["rdst radix sort / ahash set / rayon ordered collect (DESIGN §3)"],
+    },
     "C20": {
         "level": "proof",
         "assumptions": [
